@@ -29,7 +29,7 @@ func runC04(r *Run) {
 	r.Alias("$b", "recv.block")
 	r.Alias("$send", "recv.momentumStore.GetAccountBlockByHash($b.FromBlockHash)")
 	r.Alias("$front", "recv.accountStore.SequencerFront(recv.momentumStore.GetAccountMailbox($b.Address))")
-	r.Alias("$blk", "append(list(recv.GetAccountBlock(a0)#0),recv.GetAccountBlock(a0)#0.DescendantBlocks)[(iter+1)]")
+	r.Alias("$blk", "append(list(recv.GetAccountBlock(a0)#0),recv.GetAccountBlock(a0)#0.DescendantBlocks)[iter]")
 	r.Alias("$ctx", "eq(nil,recv.DB.Subset(momentum.getAccountStorePrefix(a0.Address)).Apply(a1)) & ne(0,len(a1.Dump()))")
 	r.Alias("$lctx", "$ctx & eq(nil,recv.setBlockConfirmationHeight($blk.Hash,(recv.Identifier().Height+1)))")
 
